@@ -57,6 +57,23 @@ def judge(jinja2, c, s, real):
 IGNORED = {"comment_begin", "comment", "comment_end", "whitespace", "linecomment_begin", "linecomment_end", "linecomment",
            "raw_begin", "raw_end"}
 _sbx = {}
+_pre = {}
+
+
+def preprocessing_env(jinja2, c):
+    """an environment whose extension rewrites the text in preprocess (drops lines starting with '%%', wraps
+    every 'a', appends a line): Environment.lex must still tokenise the GIVEN source"""
+    e = _pre.get(c.key())
+    if e is None:
+        from jinja2.ext import Extension
+
+        class Rewriting(Extension):
+            def preprocess(self, source, name, filename=None):
+                lines = [ln for ln in source.split("\n") if not ln.startswith("%%")]
+                return "\n".join(lines).replace("a", "[a]\n") + "\nappended line"
+
+        e = _pre[c.key()] = jinja2.Environment(extensions=[Rewriting], **c.kwargs())
+    return e
 
 
 def other_views(jinja2, c, env, s, toks):
@@ -71,6 +88,12 @@ def other_views(jinja2, c, env, s, toks):
             got = "X:" + type(e).__name__
         if got != toks:
             return "Environment.lex(%s source) differs: %r" % (label, got)
+    try:
+        got = [(ln, str(ty), v) for ln, ty, v in preprocessing_env(jinja2, c).lex(s)]
+    except Exception as e:
+        got = "X:" + type(e).__name__
+    if got != toks:
+        return "lex() of an environment with a preprocessing extension does not tokenise the given source: %r" % (got,)
     sb = _sbx.get(c.key())
     if sb is None:
         sb = _sbx[c.key()] = SandboxedEnvironment(**c.kwargs())
@@ -183,6 +206,16 @@ def run(ctx):
         "Py_UNICODE_ISSPACE table of the model == re \\s == str.isspace == str.rstrip (probed over all code points)",
     ]
     ctx.proof("C39")
+    try:
+        from . import c13
+        tr = c13.load_translator()
+        ok, _ = ctx.coq_obligation("LexApiFacts", tr.coq_text_lex(tr.lex_facts(lib.REPO)), n_obligations=1)
+        if ok:
+            ctx.case(sample={"T1": "lex_is_raw: Environment.lex calls tokeniter and no preprocessing hook"}, key="T1")
+            ctx.validated()
+    except Exception as e:
+        ctx.obligations += 1
+        ctx.broken.append("T1 translator gen/lex_envfacts.py (lex_facts): %s: %s" % (type(e).__name__, e))
     bad = L.probe_whitespace_table()
     if bad:
         ctx.model_mismatch("is_space table vs running interpreter", {"code_points": bad[:20]}, "table", "interpreter", None)
@@ -236,7 +269,7 @@ def run(ctx):
             if api != r[1]:
                 ctx.reject(case, "Environment.lex differs from Lexer.tokeniter: %r" % (api,), "C39:lex-api:%r:%s" % (s, c.key()))
                 continue
-        if r[0] == "OK" and len(types) > 1 and ctx.rng.random() < 0.08:
+        if r[0] == "OK" and (len(types) > 1 or "a" in s) and ctx.rng.random() < 0.08:
             w = other_views(jinja2, c, env, s, r[1])
             ctx.count("other_views")
             if w:
@@ -283,6 +316,8 @@ def replay(ctx, data):
     print("real       :", r)
     print("model      :", L.model_runs(ctx, [(c, s)])[0].canon())
     w = judge(jinja2, c, s, r)
+    if not w and r[0] == "OK":
+        w = other_views(jinja2, c, L.env_for(jinja2, c), s, r[1])
     print("oracle     :", w)
     if w:
         ctx.reject(case, w, data.get("signature"))
